@@ -89,4 +89,9 @@ META = {
         "design_ref": "DESIGN.md section 6 C20 and section 7",
         "note": "Trusted: go-version NewVersion/Compare models (replayed natively against the real library on every witness), engine-only models for OpenGtp5g / os.ReadFile / yaml.Unmarshal / govalidator.ValidateStruct (parts 2 and 3 have no native replay). The configuration-validation half of the statement is outside the claim.",
     },
+    "C07": {
+        "text": "PARTIAL (IE payloads and addressing; not raw-byte envelopes). Bounded model checking through the real event loop: for each of 39 leaf IE types go-upf or the gtp5g driver decodes, a request whose one IE of that type carries a symbolic payload of every length 0..nominal+2 is marshalled, fed to PfcpServer.main (so its recover -> log.Fatalf is observed as 'the process exits'), with the no-op driver and with the gtp5g driver on a simulated kernel; afterwards a Heartbeat must be answered and a bystander session must be intact. Every reachable panic is a solver query on the faulting condition. Header-SEID addressing over the whole 64-bit range is decided by C04's request-header harnesses.",
+        "design_ref": "DESIGN.md section 6 C07 (b) and (c)",
+        "note": "Not covered: datagrams that are not a parsable PFCP message of a known type (go-pfcp message.Parse on raw symbolic bytes), several malformed IEs in one message, non-ASCII flow-description text. Known findings (open): two go-pfcp accessor panics reached through the gtp5g driver (Outer Header Creation with C-TAG/S-TAG, SDF Filter FD length) that PfcpServer.main turns into log.Fatalf.",
+    },
 }
